@@ -247,3 +247,34 @@ func (g *gen) nestedGroupCalls() {
 		w.NestedGroup = gi + 1
 	}
 }
+
+// namedBasicElems: list helpers over slices whose element type is a named
+// basic type (the helper a plugin asks another plugin for must be asked for
+// the named type, not for its underlying basic type). bool and complex are
+// only given to sort / unique / contains, which order them through Compare or
+// need no order.
+func (g *gen) namedBasicElems() {
+	w, t := g.w, g.t
+	under := []string{"bool", "complex128", "string", "int", "float64", "uint8", "float32"}[t.Intn(7)]
+	d := &Decl{Name: fmt.Sprintf("NE%d", g.id()), Under: Basic(under), File: t.Intn(w.NFiles)}
+	w.Decls = append(w.Decls, d)
+	e := Named("", d.Name)
+	ordered := under != "bool" && under != "complex128"
+	cands := []*Call{
+		{Plugin: "sort", Args: []Arg{{Param: "l", Ty: Slice(e)}}, NRes: 1, ResTy: Slice(e)},
+		{Plugin: "unique", Args: []Arg{{Param: "l", Ty: Slice(e)}}, NRes: 1, ResTy: Slice(e)},
+		{Plugin: "contains", Args: []Arg{{Param: "l", Ty: Slice(e)}, {Param: "e", Ty: e}}, NRes: 1},
+	}
+	if ordered {
+		cands = append(cands,
+			&Call{Plugin: "min", Args: []Arg{{Param: "l", Ty: Slice(e)}, {Param: "d", Ty: e}}, NRes: 1},
+			&Call{Plugin: "max", Args: []Arg{{Param: "a", Ty: e}, {Param: "b", Ty: e}}, NRes: 1},
+			&Call{Plugin: "set", Args: []Arg{{Param: "l", Ty: Slice(e)}}, NRes: 1})
+	}
+	k := t.Intn(len(cands))
+	for i := 0; i < 1+t.Intn(3); i++ {
+		if f := g.finish(cands[(k+i)%len(cands)], ""); f != nil {
+			w.Calls = append(w.Calls, f)
+		}
+	}
+}
